@@ -1,7 +1,9 @@
 //! syn AST -> IR. Anything not recognised becomes an `Unknown` node (the Coq checkers fail closed).
 
+use crate::inline::{self, FnDef, FnTable, Owner};
 use crate::ir::*;
 use quote::ToTokens;
+use std::cell::RefCell;
 use std::collections::BTreeMap;
 use syn::{Block, Expr, Pat, Type};
 
@@ -37,11 +39,37 @@ pub fn compact_str(s: &str) -> String {
     o
 }
 
-pub struct Ctx {
+pub struct Ctx<'a> {
     /// name of the `&mut impl Trace` parameter (`cc`), or `self` inside `Trace::trace`'s default
     pub tracer: String,
     /// does `self` denote the container being traced?
     pub self_is_container: bool,
+    /// the functions defined in the crate (for inlining calls); `None`: no call is ever inlined
+    pub fns: Option<&'a FnTable>,
+    /// file whose names are in scope (resolution of free-function calls)
+    pub file: String,
+    /// canonical type constructor and type arguments (as written) of the impl being translated
+    pub self_tycon: Option<String>,
+    pub self_args: Vec<String>,
+    /// names of the functions currently being inlined (recursion / depth guard)
+    pub stack: RefCell<Vec<String>>,
+    /// `fn` items declared in the enclosing blocks (innermost last)
+    pub local_fns: RefCell<Vec<FnDef>>,
+}
+
+impl<'a> Ctx<'a> {
+    pub fn plain(tracer: &str, self_is_container: bool) -> Ctx<'a> {
+        Ctx {
+            tracer: tracer.to_string(),
+            self_is_container,
+            fns: None,
+            file: String::new(),
+            self_tycon: None,
+            self_args: vec![],
+            stack: RefCell::new(vec![]),
+            local_fns: RefCell::new(vec![]),
+        }
+    }
 }
 
 fn strip(e: &Expr) -> &Expr {
@@ -92,7 +120,93 @@ fn peel_derefs(e: &Expr) -> (usize, &Expr) {
     }
 }
 
-impl Ctx {
+fn bool_pat(p: &Pat) -> Option<bool> {
+    match p {
+        Pat::Lit(l) if l.attrs.is_empty() => match &l.lit {
+            syn::Lit::Bool(b) => Some(b.value),
+            _ => None,
+        },
+        Pat::Paren(p) => bool_pat(&p.pat),
+        _ => None,
+    }
+}
+
+fn ident_expr(name: &str) -> Expr {
+    let id = syn::Ident::new(name, proc_macro2::Span::call_site());
+    Expr::Path(syn::ExprPath { attrs: vec![], qself: None, path: syn::Path::from(id) })
+}
+
+/// `f`, `m::f`, `Self::f`, `f::<..>`: the path of a plain function call.
+fn call_path(func: &Expr) -> Option<Vec<String>> {
+    if let Expr::Path(p) = strip(func) {
+        if p.qself.is_none() && p.attrs.is_empty() {
+            let n = p.path.segments.len();
+            if p.path.segments.iter().take(n.saturating_sub(1)).all(|s| s.arguments.is_none()) {
+                return Some(p.path.segments.iter().map(|s| s.ident.to_string()).collect());
+            }
+        }
+    }
+    None
+}
+
+/// Negation normal form with constant folding of `!`; `&&` with a literal operand is folded as well.
+pub fn nnf(b: BExpr) -> BExpr {
+    fn neg(b: BExpr) -> BExpr {
+        match b {
+            BExpr::True => BExpr::False,
+            BExpr::False => BExpr::True,
+            BExpr::Not(x) => nnf(*x),
+            BExpr::And(x, y) => BExpr::Or(Box::new(neg(*x)), Box::new(neg(*y))),
+            BExpr::Or(x, y) => mk_and(neg(*x), neg(*y)),
+            o => BExpr::Not(Box::new(o)),
+        }
+    }
+    fn mk_and(x: BExpr, y: BExpr) -> BExpr {
+        match (x, y) {
+            (BExpr::True, o) | (o, BExpr::True) => o,
+            (x, y) => BExpr::And(Box::new(x), Box::new(y)),
+        }
+    }
+    match b {
+        BExpr::Not(x) => neg(*x),
+        BExpr::And(x, y) => mk_and(nnf(*x), nnf(*y)),
+        BExpr::Or(x, y) => BExpr::Or(Box::new(nnf(*x)), Box::new(nnf(*y))),
+        o => o,
+    }
+}
+
+fn fix_generics_b(b: &BExpr, opaque: &[String], rename: &BTreeMap<String, String>) -> BExpr {
+    match b {
+        BExpr::Var(t) => {
+            let root = t.split("::").next().unwrap_or("").to_string();
+            if opaque.iter().any(|g| *g == root) {
+                BExpr::Unknown(format!("{}::NEEDS_TRACE (a generic parameter of an inlined function)", t))
+            } else if let Some(to) = rename.get(&root) {
+                BExpr::Var(format!("{}{}", to, &t[root.len()..]))
+            } else {
+                b.clone()
+            }
+        }
+        BExpr::Or(x, y) => BExpr::Or(Box::new(fix_generics_b(x, opaque, rename)), Box::new(fix_generics_b(y, opaque, rename))),
+        BExpr::And(x, y) => BExpr::And(Box::new(fix_generics_b(x, opaque, rename)), Box::new(fix_generics_b(y, opaque, rename))),
+        BExpr::Not(x) => BExpr::Not(Box::new(fix_generics_b(x, opaque, rename))),
+        o => o.clone(),
+    }
+}
+
+fn fix_generics(s: &Stmt, opaque: &[String], rename: &BTreeMap<String, String>) -> Stmt {
+    let f = |x: &Stmt| Box::new(fix_generics(x, opaque, rename));
+    match s {
+        Stmt::Seq(a, b) => Stmt::Seq(f(a), f(b)),
+        Stmt::ForEach(a, b, c) => Stmt::ForEach(a.clone(), b.clone(), f(c)),
+        Stmt::MatchEnum(sc, arms) => Stmt::MatchEnum(sc.clone(), arms.iter().map(|(a, b, c)| (a.clone(), b.clone(), fix_generics(c, opaque, rename))).collect()),
+        Stmt::IfConst(g, b) => Stmt::IfConst(fix_generics_b(g, opaque, rename), f(b)),
+        Stmt::LetTuple(a, b) => Stmt::LetTuple(a.clone(), f(b)),
+        o => o.clone(),
+    }
+}
+
+impl<'a> Ctx<'a> {
     fn is_tracer(&self, e: &Expr) -> bool {
         // `cc`, `&mut *cc`, `&mut cc`
         match strip(e) {
@@ -307,7 +421,13 @@ impl Ctx {
         }
     }
 
+    /// A boolean constant expression, in negation normal form (`!(!a && !b)` is rendered as `a || b`; a
+    /// negation that cannot be pushed to nothing stays and is rejected by the Coq checker).
     pub fn bexpr(&self, e: &Expr) -> BExpr {
+        nnf(self.bexpr_raw(e))
+    }
+
+    fn bexpr_raw(&self, e: &Expr) -> BExpr {
         let unk = || BExpr::Unknown(compact(e));
         match strip(e) {
             Expr::Lit(l) => match &l.lit {
@@ -317,14 +437,23 @@ impl Ctx {
                 _ => unk(),
             },
             Expr::Binary(b) => match b.op {
-                syn::BinOp::Or(_) => BExpr::Or(Box::new(self.bexpr(&b.left)), Box::new(self.bexpr(&b.right))),
-                syn::BinOp::And(_) => BExpr::And(Box::new(self.bexpr(&b.left)), Box::new(self.bexpr(&b.right))),
+                // on `bool` constants `|` / `&` compute the same value as `||` / `&&` (no side effects to skip)
+                syn::BinOp::Or(_) | syn::BinOp::BitOr(_) => BExpr::Or(Box::new(self.bexpr_raw(&b.left)), Box::new(self.bexpr_raw(&b.right))),
+                syn::BinOp::And(_) | syn::BinOp::BitAnd(_) => BExpr::And(Box::new(self.bexpr_raw(&b.left)), Box::new(self.bexpr_raw(&b.right))),
                 _ => unk(),
             },
-            Expr::Unary(u) if matches!(u.op, syn::UnOp::Not(_)) => BExpr::Not(Box::new(self.bexpr(&u.expr))),
+            Expr::Unary(u) if matches!(u.op, syn::UnOp::Not(_)) => BExpr::Not(Box::new(self.bexpr_raw(&u.expr))),
             Expr::Block(b) if b.label.is_none() && b.attrs.is_empty() && b.block.stmts.len() == 1 => {
                 if let syn::Stmt::Expr(e, None) = &b.block.stmts[0] {
-                    self.bexpr(e)
+                    self.bexpr_raw(e)
+                } else {
+                    unk()
+                }
+            }
+            // `const { EXPR }`
+            Expr::Const(c) if c.attrs.is_empty() && c.block.stmts.len() == 1 => {
+                if let syn::Stmt::Expr(e, None) = &c.block.stmts[0] {
+                    self.bexpr_raw(e)
                 } else {
                     unk()
                 }
@@ -365,31 +494,52 @@ impl Ctx {
         }
     }
 
+    /// The body of a function (`trace` itself, or a function inlined into it): a `return` leaves exactly
+    /// this block.
     pub fn block(&self, b: &Block) -> Stmt {
-        self.stmts(&b.stmts)
+        self.stmts(&b.stmts, true)
     }
 
-    fn stmts(&self, ss: &[syn::Stmt]) -> Stmt {
+    /// A block nested in a function body: `return` inside it is not understood.
+    fn inner_block(&self, b: &Block) -> Stmt {
+        self.stmts(&b.stmts, false)
+    }
+
+    fn stmts(&self, ss: &[syn::Stmt], top: bool) -> Stmt {
+        // `fn` items declared in this block are callable from all of it; they are inlined at their call sites
+        let n_locals = self.local_fns.borrow().len();
+        for s in ss {
+            if let syn::Stmt::Item(syn::Item::Fn(f)) = s {
+                self.local_fns.borrow_mut().push(FnDef::from_item(f, &self.file));
+            }
+        }
+        let r = self.stmts_in(ss, top);
+        self.local_fns.borrow_mut().truncate(n_locals);
+        r
+    }
+
+    fn stmts_in(&self, ss: &[syn::Stmt], top: bool) -> Stmt {
         let mut out = Vec::new();
         for (k, s) in ss.iter().enumerate() {
             match s {
-                // `if !COND { return; } REST`  ==  `if COND { REST }`   (early-return guard, constant condition)
+                // `if !COND { return; } REST`  ==  `if COND { REST }`   (early-return guard, constant condition;
+                // only at the top level of a function body, where `return` skips exactly REST)
                 syn::Stmt::Expr(Expr::If(i), _)
-                    if i.attrs.is_empty() && i.else_branch.is_none() && Self::is_bare_return(&i.then_branch) && matches!(strip(&i.cond), Expr::Unary(u) if matches!(u.op, syn::UnOp::Not(_))) =>
+                    if top && i.attrs.is_empty() && i.else_branch.is_none() && Self::is_bare_return(&i.then_branch) =>
                 {
-                    if let Expr::Unary(u) = strip(&i.cond) {
-                        out.push(Stmt::IfConst(self.bexpr(&u.expr), Box::new(self.stmts(&ss[k + 1..]))));
-                        return Ctx::seq(out);
-                    }
+                    let neg = BExpr::Not(Box::new(self.bexpr_raw(&i.cond)));
+                    out.push(Stmt::IfConst(nnf(neg), Box::new(self.stmts_in(&ss[k + 1..], top))));
+                    return Ctx::seq(out);
                 }
                 syn::Stmt::Expr(e, _) => out.push(self.expr(e)),
+                syn::Stmt::Item(syn::Item::Fn(_)) => {}
                 syn::Stmt::Local(l) => {
                     // let mut it = SRC; while let Some(p) = it.next() { body }   ==  for p in SRC { body }
                     // (only when `it` is used nowhere else: the `while` must be the very next statement and
                     //  its body must not mention `it`)
                     if let Some(fe) = self.while_next(l, ss.get(k + 1)) {
                         out.push(fe);
-                        out.push(self.stmts(&ss[k + 2..]));
+                        out.push(self.stmts_in(&ss[k + 2..], top));
                         return Ctx::seq(out);
                     }
                     // let (A, B, ..) = self; <rest>
@@ -402,10 +552,18 @@ impl Ctx {
                     };
                     match pats {
                         Some(p) => {
-                            out.push(Stmt::LetTuple(p, Box::new(self.stmts(&ss[k + 1..]))));
+                            out.push(Stmt::LetTuple(p, Box::new(self.stmts_in(&ss[k + 1..], top))));
                             return Ctx::seq(out);
                         }
-                        None => out.push(Stmt::Unknown(compact(s))),
+                        None => match self.let_subst(l, &ss[k + 1..]) {
+                            // let x = PURE; REST   ==  REST[x := PURE]
+                            Some(Ok(rest)) => {
+                                out.push(self.stmts_in(&rest, top));
+                                return Ctx::seq(out);
+                            }
+                            Some(Err(why)) => out.push(Stmt::Unknown(format!("{} ({})", compact(s), why))),
+                            None => out.push(Stmt::Unknown(compact(s))),
+                        },
                     }
                 }
                 syn::Stmt::Item(_) | syn::Stmt::Macro(_) => out.push(Stmt::Unknown(compact(s))),
@@ -470,7 +628,165 @@ impl Ctx {
             from = b;
         }
         let pats = self.binders(inner)?;
-        Some(Stmt::ForEach(self.iter_src(&init.expr), pats, Box::new(self.block(&w.body))))
+        Some(Stmt::ForEach(self.iter_src(&init.expr), pats, Box::new(self.inner_block(&w.body))))
+    }
+
+    /// `let x = PURE;` (or an alias of the tracer) followed by REST: REST with `x` replaced.
+    /// `None`: not such a `let`; `Some(Err(_))`: it is one, but the replacement is refused.
+    fn let_subst(&self, l: &syn::Local, rest: &[syn::Stmt]) -> Option<Result<Vec<syn::Stmt>, String>> {
+        if !l.attrs.is_empty() {
+            return None;
+        }
+        let (name, is_mut) = inline::simple_binder(&l.pat)?;
+        let init = l.init.as_ref()?;
+        if init.diverge.is_some() || is_mut || name == self.tracer || name == "self" {
+            return None;
+        }
+        let mut map = BTreeMap::new();
+        let mut pure = BTreeMap::new();
+        if self.is_tracer(&init.expr) {
+            map.insert(name.clone(), ident_expr(&self.tracer));
+        } else {
+            let pu = inline::purity(&init.expr)?;
+            if inline::idents_of_expr(&init.expr).contains(&self.tracer) {
+                return None;
+            }
+            map.insert(name.clone(), (*init.expr).clone());
+            pure.insert(name, pu);
+        }
+        Some(inline::substitute(rest, &map, &pure))
+    }
+
+    /// Which definition a path call denotes: a `fn` item of an enclosing block, an associated function of the
+    /// impl's own type (`Self::f`, `Ty::f`), or a free function of the crate.
+    fn call_target(&self, segs: &[String]) -> Result<(FnDef, bool), String> {
+        if segs.len() == 1 {
+            if let Some(d) = self.local_fns.borrow().iter().rev().find(|d| d.name == segs[0]) {
+                return Ok((d.clone(), true));
+            }
+        }
+        let table = self.fns.ok_or_else(|| "no function table in this context".to_string())?;
+        if segs.len() == 2 {
+            if let Some(tc) = &self.self_tycon {
+                let short = tc.rsplit("::").next().unwrap_or("");
+                if segs[0] == "Self" || (segs[0] == short && tc.starts_with("crate::")) {
+                    return table.resolve_assoc(tc, &segs[1]).map(|d| (d.clone(), false));
+                }
+            }
+        }
+        table.resolve_free(segs, &self.file).map(|d| (d.clone(), false))
+    }
+
+    /// The body of `def` with its parameters replaced by the arguments of this call, translated in place.
+    fn inline(&self, def: &FnDef, recv: Option<&Expr>, mut args: Vec<&Expr>, local: bool) -> Result<Stmt, String> {
+        def.inlinable()?;
+        {
+            let st = self.stack.borrow();
+            if st.iter().any(|n| *n == def.name) {
+                return Err(format!("recursive call of `{}`", def.name));
+            }
+            if st.len() >= inline::max_depth() {
+                return Err(format!("inlining depth {} exceeded at `{}`", inline::max_depth(), def.name));
+            }
+        }
+        let mut params = def.sig.inputs.iter();
+        if def.has_receiver() {
+            let r: &Expr = match recv {
+                Some(r) => r,
+                None => {
+                    if args.is_empty() {
+                        return Err("missing receiver argument".into());
+                    }
+                    args.remove(0)
+                }
+            };
+            if !(self.self_is_container && is_self_like(r)) {
+                return Err(format!("receiver `{}` is not the container itself", compact(r)));
+            }
+            params.next();
+        } else if recv.is_some() {
+            return Err(format!("`{}` takes no receiver", def.name));
+        }
+        let params: Vec<&syn::FnArg> = params.collect();
+        if params.len() != args.len() {
+            return Err(format!("`{}` takes {} arguments, {} given", def.name, params.len(), args.len()));
+        }
+        let mut map = BTreeMap::new();
+        let mut pure = BTreeMap::new();
+        let mut tracers = 0;
+        for (p, a) in params.iter().zip(args.iter()) {
+            let name = match p {
+                syn::FnArg::Typed(pt) if pt.attrs.is_empty() => match inline::simple_binder(&pt.pat) {
+                    Some((n, _)) => n,
+                    None => return Err(format!("parameter pattern `{}`", compact(&pt.pat))),
+                },
+                o => return Err(format!("parameter `{}`", compact(o))),
+            };
+            if self.is_tracer(a) {
+                tracers += 1;
+                map.insert(name, ident_expr(&self.tracer));
+            } else {
+                let pu = inline::purity(a).ok_or_else(|| format!("argument `{}` is not a plain place / zero-argument method call", compact(*a)))?;
+                if inline::idents_of_expr(a).contains(&self.tracer) {
+                    return Err(format!("argument `{}` mentions the tracer", compact(*a)));
+                }
+                map.insert(name.clone(), (*a).clone());
+                pure.insert(name, pu);
+            }
+        }
+        if tracers != 1 {
+            return Err(format!("{} arguments are the tracer", tracers));
+        }
+        if !def.has_receiver() && inline::idents_of_expr(&Expr::Block(syn::ExprBlock { attrs: vec![], label: None, block: def.block.clone() })).contains("self") {
+            return Err("`self` inside a function without receiver".into());
+        }
+        let body = inline::substitute(&def.block.stmts, &map, &pure)?;
+        // impl-level generics of the helper's impl block are renamed positionally to the type arguments of the
+        // impl being translated; generics of the function itself are not resolvable without type inference
+        let mut rename: BTreeMap<String, String> = BTreeMap::new();
+        let owner_args = match &def.owner {
+            Owner::Free => None,
+            Owner::Inherent(_, a) | Owner::TraitImpl(_, _, a) => Some(a),
+        };
+        if let Some(oa) = owner_args {
+            if oa.len() != self.self_args.len() {
+                return Err(format!("`{}` is defined for {} type arguments, the impl has {}", def.name, oa.len(), self.self_args.len()));
+            }
+            for (x, y) in oa.iter().zip(self.self_args.iter()) {
+                if x == y && !def.impl_generics.iter().any(|g| g == x) {
+                    continue;
+                }
+                if !def.impl_generics.iter().any(|g| g == x) {
+                    return Err(format!("`{}` is defined for the type argument `{}`, not `{}`", def.name, x, y));
+                }
+                if let Some(prev) = rename.get(x) {
+                    if prev != y {
+                        return Err(format!("type parameter `{}` of the helper's impl stands for both `{}` and `{}`", x, prev, y));
+                    }
+                }
+                rename.insert(x.clone(), y.clone());
+            }
+        }
+        let mut stack = self.stack.borrow().clone();
+        stack.push(def.name.clone());
+        let sub = Ctx {
+            tracer: self.tracer.clone(),
+            self_is_container: self.self_is_container,
+            fns: self.fns,
+            file: def.file.clone(),
+            self_tycon: self.self_tycon.clone(),
+            self_args: self.self_args.clone(),
+            stack: RefCell::new(stack),
+            local_fns: RefCell::new(if local { self.local_fns.borrow().clone() } else { vec![] }),
+        };
+        let st = sub.stmts(&body, true);
+        let mut opaque: Vec<String> = def.type_params();
+        for g in &def.impl_generics {
+            if !rename.contains_key(g) {
+                opaque.push(g.clone());
+            }
+        }
+        Ok(fix_generics(&st, &opaque, &rename))
     }
 
     fn is_trait_fn(func: &Expr, tr: &str, f: &str) -> bool {
@@ -523,6 +839,20 @@ impl Ctx {
                         }
                     }
                 }
+                // self.helper(.., cc, ..): a method the crate itself defines for this very type constructor
+                if self.self_is_container && is_self_like(&m.receiver) && m.args.iter().any(|a| self.is_tracer(a)) {
+                    if let (Some(t), Some(tc)) = (self.fns, self.self_tycon.as_ref()) {
+                        return match t.resolve_assoc(tc, &name) {
+                            Ok(def) if def.has_receiver() => match self.inline(def, Some(&m.receiver), m.args.iter().collect(), false) {
+                                Ok(s) => s,
+                                Err(why) => Stmt::Unknown(format!("{} (not inlined: {})", compact(e), why)),
+                            },
+                            Ok(_) => Stmt::Unknown(format!("{} (not inlined: `{}` takes no receiver)", compact(e), name)),
+                            Err(why) if why.starts_with("no ") => unk(),
+                            Err(why) => Stmt::Unknown(format!("{} (not inlined: {})", compact(e), why)),
+                        };
+                    }
+                }
                 unk()
             }
             Expr::Call(c) => {
@@ -545,6 +875,19 @@ impl Ctx {
                         return Stmt::CollectTrace(self.place(&c.args[0]));
                     }
                 }
+                // helper(.., cc, ..) / Self::helper(self, cc): a function defined in the crate, inlined
+                if c.args.iter().any(|a| self.is_tracer(a)) {
+                    if let Some(segs) = call_path(&c.func) {
+                        return match self.call_target(&segs) {
+                            Ok((def, local)) => match self.inline(&def, None, c.args.iter().collect(), local) {
+                                Ok(s) => s,
+                                Err(why) => Stmt::Unknown(format!("{} (not inlined: {})", compact(e), why)),
+                            },
+                            Err(why) if why.starts_with("no ") => unk(),
+                            Err(why) => Stmt::Unknown(format!("{} (not inlined: {})", compact(e), why)),
+                        };
+                    }
+                }
                 unk()
             }
             Expr::ForLoop(f) => {
@@ -552,7 +895,7 @@ impl Ctx {
                     return unk();
                 }
                 match self.binders(&f.pat) {
-                    Some(pats) => Stmt::ForEach(self.iter_src(&f.expr), pats, Box::new(self.block(&f.body))),
+                    Some(pats) => Stmt::ForEach(self.iter_src(&f.expr), pats, Box::new(self.inner_block(&f.body))),
                     None => unk(),
                 }
             }
@@ -565,16 +908,61 @@ impl Ctx {
                         Some(x) => x,
                         None => return unk(),
                     };
-                    let mut arms = vec![(v, pats, self.block(&i.then_branch))];
+                    let mut arms = vec![(v, pats, self.inner_block(&i.then_branch))];
                     if let Some((_, els)) = &i.else_branch {
-                        arms.push(("_".to_string(), vec![], self.expr(els)));
+                        // an empty `else {}` traces nothing, like no `else` at all
+                        let els = self.expr(els);
+                        if els != Stmt::Nop {
+                            arms.push(("_".to_string(), vec![], els));
+                        }
                     }
                     return Stmt::MatchEnum(self.scrut(&l.expr), arms);
                 }
-                if i.else_branch.is_some() {
-                    return unk();
+                let cond = self.bexpr(&i.cond);
+                let then = Stmt::IfConst(cond, Box::new(self.inner_block(&i.then_branch)));
+                match &i.else_branch {
+                    None => then,
+                    // if C { A } else { B }  ==  if C { A }; if !C { B }   (C is a constant)
+                    Some((_, els)) => {
+                        let neg = nnf(BExpr::Not(Box::new(self.bexpr_raw(&i.cond))));
+                        let els = self.expr(els);
+                        let a = if matches!(&then, Stmt::IfConst(c, b) if **b == Stmt::Nop && !c.has_unknown()) { Stmt::Nop } else { then };
+                        let b = if els == Stmt::Nop { Stmt::Nop } else { Stmt::IfConst(neg, Box::new(els)) };
+                        Ctx::seq(vec![a, b])
+                    }
                 }
-                Stmt::IfConst(self.bexpr(&i.cond), Box::new(self.block(&i.then_branch)))
+            }
+            Expr::Match(m) if m.attrs.is_empty() && m.arms.iter().any(|a| bool_pat(&a.pat).is_some()) => {
+                // match CONST { true => A, false => B }  ==  if CONST { A }; if !CONST { B }
+                // (arms in any order, `_` as the last arm for whatever value is left)
+                let c = self.bexpr_raw(&m.expr);
+                let (mut on_true, mut on_false): (Option<Stmt>, Option<Stmt>) = (None, None);
+                for a in &m.arms {
+                    if a.guard.is_some() || !a.attrs.is_empty() {
+                        return unk();
+                    }
+                    let body = self.expr(&a.body);
+                    match (bool_pat(&a.pat), matches!(&a.pat, Pat::Wild(_))) {
+                        (Some(true), _) if on_true.is_none() => on_true = Some(body),
+                        (Some(false), _) if on_false.is_none() => on_false = Some(body),
+                        (None, true) => {
+                            if on_true.is_none() {
+                                on_true = Some(body.clone());
+                            }
+                            if on_false.is_none() {
+                                on_false = Some(body);
+                            }
+                        }
+                        _ => return unk(),
+                    }
+                }
+                match (on_true, on_false) {
+                    (Some(t), Some(f)) => Ctx::seq(vec![
+                        Stmt::IfConst(nnf(c.clone()), Box::new(t)),
+                        if f == Stmt::Nop { Stmt::Nop } else { Stmt::IfConst(nnf(BExpr::Not(Box::new(c))), Box::new(f)) },
+                    ]),
+                    _ => unk(),
+                }
             }
             Expr::Match(m) => {
                 if !m.attrs.is_empty() {
@@ -586,13 +974,19 @@ impl Ctx {
                         return unk();
                     }
                     match self.variant_pat(&a.pat) {
-                        Some((v, pats)) => arms.push((v, pats, self.expr(&a.body))),
+                        // `_ => {}`: the remaining variants trace nothing, which is what leaving them out means
+                        Some((v, pats)) => {
+                            let body = self.expr(&a.body);
+                            if !(v == "_" && body == Stmt::Nop) {
+                                arms.push((v, pats, body));
+                            }
+                        }
                         None => return unk(),
                     }
                 }
                 Stmt::MatchEnum(self.scrut(&m.expr), arms)
             }
-            Expr::Block(b) if b.label.is_none() && b.attrs.is_empty() => self.block(&b.block),
+            Expr::Block(b) if b.label.is_none() && b.attrs.is_empty() => self.inner_block(&b.block),
             Expr::Tuple(t) if t.elems.is_empty() => Stmt::Nop,
             _ => unk(),
         }
